@@ -181,6 +181,8 @@ type Exec struct {
 	directRecover bool
 	dbAx          []dbAxiom
 	constArrs     map[string]*Term
+	concatPrefix  map[string]string
+	globalFacts   []*Term // ground facts valid in every state (literal bytes, concat consequences)
 }
 
 type ifaceOrigin struct {
